@@ -363,35 +363,15 @@ func stValue(f int, hseed int64, vseed int) *stVal {
 		shape = vseed % stNShapes[f]
 	}
 	if vseed >= stEdge { // values outside what the protocol produces ("sys/edge" scenarios only)
-		switch k := vseed - stEdge; {
+		switch {
 		case f == 0:
 			return &stVal{"edge/chain0", stChainDig(nil), func(ctx context.Context, db *sqlite.DB) error { return db.SetDeviceCertChain(ctx, nil) }}
-		case f == 8:
-			h := protocol.Hmac{Algorithm: protocol.HmacSha256Hash, Value: stBytes(r, 20)}
-			name := "edge/hmac-20-bytes"
-			switch k {
-			case 1:
-				h, name = protocol.Hmac{Algorithm: protocol.Sha256Hash, Value: stBytes(r, 32)}, "edge/hash-alg-sha256-not-hmac"
-			case 2:
-				h, name = protocol.Hmac{Algorithm: protocol.HmacSha256Hash, Value: []byte{}}, "edge/hmac-empty"
-			case 3:
-				h, name = protocol.Hmac{Algorithm: protocol.HmacSha256Hash, Value: nil}, "edge/hmac-nil"
-			}
-			return &stVal{name, stDig(stMustCBOR(h)), func(ctx context.Context, db *sqlite.DB) error { return db.SetReplacementHmac(ctx, h) }}
 		case f == 6:
 			rv := make([][]protocol.RvInstruction, 20000)
 			for i := range rv {
 				rv[i] = []protocol.RvInstruction{{Variable: protocol.RVIPAddress, Value: stMustCBOR(stBytes(r, 4))}, {Variable: protocol.RVDevPort, Value: stMustCBOR(r.Intn(65536))}}
 			}
 			return &stVal{"edge/rv-20000-directives", stDig(stMustCBOR(rv)), func(ctx context.Context, db *sqlite.DB) error { return db.SetRvInfo(ctx, rv) }}
-		case f == 13:
-			rec := stDevmodRec{Devmod: serviceinfo.Devmod{Os: stStr(r, 100000), Arch: "a", Version: "v", Device: "d", FileSep: ";", Bin: "b"}, Complete: true}
-			for i := 0; i < 5000; i++ {
-				rec.Modules = append(rec.Modules, fmt.Sprint("m", i))
-			}
-			return &stVal{"edge/devmod-100kB-5000-modules", stDig(stMustCBOR(rec)), func(ctx context.Context, db *sqlite.DB) error {
-				return db.SetDevmod(ctx, rec.Devmod, rec.Modules, rec.Complete)
-			}}
 		}
 		vseed -= stEdge
 	}
@@ -874,6 +854,9 @@ func stParseOps(s string) ([]stOp, error) {
 
 var stFileSeq atomic.Int64
 
+// evaluations that have started and not yet returned (an evaluation abandoned by the 20 s watchdog keeps running)
+var stInflight atomic.Int64
+
 // tokens issued by another database file (another secret), made once per process
 var (
 	stForeignOnce sync.Once
@@ -1025,6 +1008,8 @@ func runStoreHistory(p core.Params) (string, string) {
 	}
 	r := &stRun{hseed: hseed, fast: p["fast"] != ""}
 	if !lineOnly {
+		stInflight.Add(1)
+		defer stInflight.Add(-1)
 		r.path = filepath.Join(WorkDir(), fmt.Sprintf("c18-%d-%d.db", os.Getpid(), stFileSeq.Add(1)))
 		_ = os.Remove(r.path)
 		db, err := stOpen(r.path, r.fast)
@@ -1400,6 +1385,19 @@ func stCheck(c *core.Ctx, ops string, hseed int64, meta string) core.Obs {
 		}
 	}
 	o := c.Do("store.history", p, meta)
+	if o.Timeout {
+		// under heavy I/O load a history can exceed the watchdog without anything being stuck: run it once more; the
+		// runner checks at the end that the abandoned evaluation did return
+		c.Count("watchdog", "exceeded 20 s, retried")
+		if n := len(c.Rep.Disagreements); n > 0 && c.Rep.Disagreements[n-1].Impl == "hang" {
+			c.Rep.Disagreements = c.Rep.Disagreements[:n-1]
+		}
+		p["retry"] = "1"
+		o = c.Do("store.history", p, meta+"/retry")
+	}
+	if o.Model != "" && o.Model != o.Impl {
+		c.Count("disagreements_by_generator", meta)
+	}
 	for _, e := range StoreLastErrors {
 		opw, text, _ := strings.Cut(e, ": ")
 		kind := strings.TrimRight(strings.SplitN(opw, ".", 2)[0], "0123456789-")
@@ -1417,7 +1415,11 @@ func stCheck(c *core.Ctx, ops string, hseed int64, meta string) core.Obs {
 		c.Fail("harness", o.Impl, "store.history", p, o)
 		return o
 	}
-	if o.Timeout || strings.HasPrefix(o.Impl, "panic") {
+	if o.Timeout {
+		c.Fail("hang@store", "history exceeded the watchdog twice", "store.history", p, o)
+		return o
+	}
+	if strings.HasPrefix(o.Impl, "panic") {
 		c.Fail("panic@store", "whole history: "+o.Impl+" "+core.PanicText, "store.history", p, o)
 		return o
 	}
@@ -1445,6 +1447,8 @@ func stCheck(c *core.Ctx, ops string, hseed int64, meta string) core.Obs {
 		return o
 	}
 	written := map[string]map[string]bool{} // token -> digests written through it
+	firedOverwrite := false
+	chainSets := map[string][]string{} // live token -> digests of the successful SetDeviceCertChain calls, in order
 	dead := map[string]bool{}
 	firstDev := true
 	for i, lop := range lops {
@@ -1476,6 +1480,9 @@ func stCheck(c *core.Ctx, ops string, hseed int64, meta string) core.Obs {
 					written[w[1]] = map[string]bool{}
 				}
 				written[w[1]][strings.TrimPrefix(w[3], "b:")] = true
+				if tokState == "live" && w[2] == "n:0" {
+					chainSets[w[1]] = append(chainSets[w[1]], strings.TrimPrefix(w[3], "b:"))
+				}
 			}
 		case "get":
 			if strings.HasPrefix(res, "v:") {
@@ -1483,6 +1490,18 @@ func stCheck(c *core.Ctx, ops string, hseed int64, meta string) core.Obs {
 					c.Fail(tokState+"-token-granted", fmt.Sprintf("op %d %s -> %s", i, lop, res), "store.history", p, o)
 				}
 				d := res[2:]
+				if cs := chainSets[w[1]]; w[2] == "n:0" && tokState == "live" && len(cs) >= 2 && d == cs[0] && cs[len(cs)-1] != cs[0] {
+					const sig = "overwrite-keeps-first-value:devcertchain"
+					if firedOverwrite {
+						// one report per history
+					} else if firedOverwrite = true; c.Rep.Hist["failure_signature"][sig] < 3 {
+						c.Fail(sig, fmt.Sprintf("op %d %s returned the chain of the first SetDeviceCertChain (%s) although %d later calls in the same session "+
+							"answered without error (last wrote %s): SetDeviceCertChain is a plain INSERT into device_info, DeviceCertChain reads the oldest row",
+							i, lop, cs[0], len(cs)-1, cs[len(cs)-1]), "store.history", p, o)
+					} else {
+						c.Count("overwrite_keeps_first_value_devcertchain", "further occurrences (not listed as failures)")
+					}
+				}
 				if !written[w[1]][d] {
 					for t, ds := range written {
 						if t != w[1] && ds[d] {
@@ -1565,9 +1584,10 @@ func (g *stGen) badSpec() string {
 	return fmt.Sprintf("x%s-%d", stBadClasses[g.r.Intn(len(stBadClasses))], g.anyTok())
 }
 
-// conform: avoid the op patterns on which the implementation is known to differ from the reference model (see the
-// notes of the report), so that everything else is compared exactly.
-func stRandomHistory(r *mrand.Rand, conform bool) string {
+// stRandomHistory: everything the reference model covers, including the store's quirks it models (invalidated tokens,
+// repeated SetDeviceCertChain / SetIncompleteVoucherHeader, SetDeviceSelfInfo without a chain, replacing absent
+// vouchers). Outside the model's domain and not generated: ReplaceVoucher with a voucher that has entries.
+func stRandomHistory(r *mrand.Rand) string {
 	g := &stGen{r: r}
 	nTok := 3 + r.Intn(4)
 	nOps := 20 + r.Intn(61)
@@ -1585,7 +1605,7 @@ func stRandomHistory(r *mrand.Rand, conform bool) string {
 		switch {
 		case x < 40: // set
 			t := g.liveTok()
-			if !conform && r.Intn(10) == 0 {
+			if r.Intn(10) == 0 {
 				if d := g.deadTok(); d >= 0 {
 					t = d
 				}
@@ -1600,29 +1620,13 @@ func stRandomHistory(r *mrand.Rand, conform bool) string {
 			} else {
 				f = r.Intn(stNFields)
 			}
-			if conform {
-				has := func(x int) bool {
-					for _, y := range g.setF[t] {
-						if y == x {
-							return true
-						}
-					}
-					return false
-				}
-				if (f == 0 || f == 2) && has(f) { // single-shot fields
-					continue
-				}
-				if f == 1 && !has(0) {
-					f = 0
-				}
-			}
 			g.add(fmt.Sprintf("s%d.%d.%d", t, f, g.nextV()))
 			if g.live[t] {
 				g.setF[t] = append(g.setF[t], f)
 			}
 		case x < 70: // get
 			t := g.liveTok()
-			if !conform && r.Intn(10) == 0 {
+			if r.Intn(10) == 0 {
 				if d := g.deadTok(); d >= 0 {
 					t = d
 				}
@@ -1637,7 +1641,7 @@ func stRandomHistory(r *mrand.Rand, conform bool) string {
 			g.add(fmt.Sprintf("g%d.%d", t, f))
 		case x < 75: // inval
 			t := g.liveTok()
-			if !conform && r.Intn(5) == 0 {
+			if r.Intn(5) == 0 {
 				if d := g.deadTok(); d >= 0 {
 					t = d
 				}
@@ -1662,19 +1666,22 @@ func stRandomHistory(r *mrand.Rand, conform bool) string {
 				vLive[gn] = true
 			case 2:
 				g2 := r.Intn(nGuid)
-				if conform && !vLive[gn] {
-					g.add(fmt.Sprintf("av%d.%d", gn, g.nextV()))
-					vLive[gn] = true
-					continue
+				if r.Intn(10) < 6 { // mostly: replace a voucher that is there (the protocol's use)
+					var present []int
+					for k := 0; k < nGuid; k++ {
+						if vLive[k] {
+							present = append(present, k)
+						}
+					}
+					if len(present) > 0 {
+						gn = present[r.Intn(len(present))]
+					}
 				}
 				v := g.nextV()
-				v = v - v%stNVoucherShapes + []int{0, 4, 8, 9}[r.Intn(4)] // no entries
+				v = v - v%stNVoucherShapes + []int{0, 4, 8, 9}[r.Intn(4)] // a voucher without entries (ReplaceVoucher's precondition)
 				g.add(fmt.Sprintf("rv%d.%d.%d", gn, g2, v))
-				if !vLive[g2] || g2 == gn {
-					if g2 != gn {
-						vLive[gn] = false
-						vLive[g2] = true
-					}
+				if vLive[gn] && !vLive[g2] {
+					vLive[gn], vLive[g2] = false, true
 				}
 			case 3:
 				g.add(fmt.Sprint("dv", gn))
@@ -1700,9 +1707,6 @@ func stRandomHistory(r *mrand.Rand, conform bool) string {
 	// closing sweep: read a few fields through every token after a restart
 	g.add(fmt.Sprint("R", r.Intn(4)))
 	for t := range g.protos {
-		if conform && !g.live[t] {
-			continue
-		}
 		for _, f := range g.setF[t] {
 			if r.Intn(2) == 0 {
 				g.add(fmt.Sprintf("g%d.%d", t, f))
@@ -1718,8 +1722,9 @@ func RunC18(c *core.Ctx) {
 	registerStoreKinds(c)
 	c.Rep.Rule = "a case is one history of store operations; the implementation's result items must equal the reference model's item by item. " +
 		"generators: systematic per-field scenarios (isolation, restart, invalidation, overwrite, foreign-protocol token, every value shape), every bad-token " +
-		"class, voucher and blob scenarios incl. expiry boundary; random histories in two profiles: 'free' (everything) and 'conform' (avoids the op patterns " +
-		"with a known difference, listed in the notes). non-trivial = history executed; distinct = distinct (ops, seed)"
+		"class, voucher and blob scenarios incl. expiry boundary; random histories of all operations over 3-9 tokens. " +
+		"monitor overwrite-keeps-first-value:devcertchain: a second successful SetDeviceCertChain in a live session after which the first chain is still read. " +
+		" non-trivial = history executed; distinct = distinct (ops, seed)"
 	c.Trivial = func(o core.Obs) bool { return !strings.HasPrefix(o.Impl, "ok") }
 	if p := stPool(); p.err != nil {
 		c.Fail("harness", p.err.Error(), "store.history", core.Params{}, core.Obs{})
@@ -1814,7 +1819,7 @@ func RunC18(c *core.Ctx) {
 	stCheck(c, "n1 s0.1.71 g0.1 s0.0.72 g0.1 g0.0", next(), "sys/selfinfo-before-chain")
 	stCheck(c, "n1 s0.0.73 s0.1.74 g0.1 g0.0 R0 g0.1 g0.0", next(), "sys/selfinfo-after-chain")
 	// values outside what the protocol produces
-	for _, e := range []struct{ f, k int }{{0, 0}, {8, 0}, {8, 1}, {8, 2}, {8, 3}, {6, 0}, {13, 0}} {
+	for _, e := range []struct{ f, k int }{{0, 0}, {6, 0}} {
 		pf := 4
 		if e.f == 0 {
 			pf = 1
@@ -1834,11 +1839,10 @@ func RunC18(c *core.Ctx) {
 		"av0.3 av1.2 rv0.1.0 qv0 qv1",
 		"av0.5 rv0.0.4 qv0",
 		"rv0.1.0 qv0 qv1",
-		"av0.2 rv0.1.1 qv0 qv1",
-		"av0.2 rv0.1.3 qv0 qv1",
 		"av0.6 av1.7 av2.9 av3.10 qv0 qv1 qv2 qv3 R2 dv1 qv0 qv1 qv2 qv3",
 		"qv0 dv0 R0 qv0",
 		"av0.11 R1 rv0.1.8 R0 rv1.2.9 R2 rv2.3.0 qv0 qv1 qv2 qv3",
+		"rv0.0.0 qv0 av0.1 qv0", // replace an absent voucher by one with the same GUID
 	} {
 		stCheck(c, h, next(), fmt.Sprint("sys/voucher-", i))
 	}
@@ -1877,19 +1881,22 @@ func RunC18(c *core.Ctx) {
 	if !quick {
 		n = 5200
 	}
+	box := 55 * time.Second // quick tier: whole run within a minute
+	if !quick {
+		box = 0
+		if v, err := strconv.Atoi(os.Getenv("C18_TIMEBOX_S")); err == nil && v > 0 {
+			box = time.Duration(v) * time.Second
+		}
+	}
 	t1 := time.Now()
 	for i := 0; i < n; i++ {
-		conform := i%2 == 1
-		meta := "random/free"
-		if conform {
-			meta = "random/conform"
-		}
-		if !quick && i%4 >= 2 {
+		meta := "random"
+		if !quick && i%2 == 1 {
 			meta += "/nosync"
 		}
-		stCheck(c, stRandomHistory(c.Rng, conform), next(), meta)
-		if quick && time.Since(t0) > 55*time.Second {
-			c.Note("quick tier time box reached after %d random histories", i+1)
+		stCheck(c, stRandomHistory(c.Rng), next(), meta)
+		if box > 0 && time.Since(t0) > box {
+			c.Note("time box (%v) reached after %d random histories", box, i+1)
 			break
 		}
 	}
@@ -1897,6 +1904,16 @@ func RunC18(c *core.Ctx) {
 	if n := stOpenCount.Load(); n > 0 && stOpCount.Load() > 0 {
 		c.Note("timing: %d database opens, %.1f ms each; %d operations (incl. restarts), %.2f ms each", n, float64(stOpenNs.Load())/float64(n)/1e6,
 			stOpCount.Load(), float64(stOpNs.Load())/float64(stOpCount.Load())/1e6)
+	}
+	if c.Rep.Hist["watchdog"] != nil {
+		for i := 0; i < 90 && stInflight.Load() > 0; i++ {
+			time.Sleep(time.Second)
+		}
+		if n := stInflight.Load(); n > 0 {
+			c.Fail("hang@store", fmt.Sprintf("%d evaluations never returned", n), "store.history", core.Params{}, core.Obs{})
+		} else {
+			c.Note("watchdog: %v; every such evaluation returned later (slow I/O, nothing stuck) and the history was run again", c.Rep.Hist["watchdog"])
+		}
 	}
 	// summary of deviations
 	if d := c.Rep.Hist["deviation"]; len(d) > 0 {
@@ -1907,6 +1924,6 @@ func RunC18(c *core.Ctx) {
 		sort.Strings(keys)
 		c.Note("deviation classes (op, field, token state, model result, implementation result): %s", strings.Join(keys, " | "))
 	}
-	c.Note("the 'conform' profile never sets DeviceCertChain / IncompleteVoucherHeader twice in a session, sets DeviceSelfInfo only after DeviceCertChain, " +
-		"uses invalidated tokens not at all and replaces only vouchers that exist")
+	c.Note("not generated (outside the model's domain): ReplaceVoucher with a voucher that has entries (documented precondition), HMAC values whose length " +
+		"is not 32/48 or whose algorithm is not an HMAC algorithm, strings/arrays at or above the CBOR decoder's 100000 limit")
 }
